@@ -79,3 +79,24 @@ Fixpoint jrun (s : jstate) (ls : list jstep_label) : option jstate :=
   | [] => Some s
   | l :: ls' => match jstep s l with Some s' => jrun s' ls' | None => None end
   end.
+
+(* ---- channel fan-in: k senders each send one value on a channel of capacity cap,
+   one receiver takes k values (groupPolynomialsByEvaluationPoint: cap 0;
+   partitionScalars: cap = nbTasks >= number of Execute tasks; MSM splits; chunk channels) ---- *)
+Record fstate := mkF { f_tosend : nat; f_buf : nat; f_recv : nat }.
+Inductive flabel := FSend | FRecv | FHandoff.
+Definition fstep (cap k : nat) (s : fstate) (l : flabel) : option fstate :=
+  match l with
+  | FSend => if (0 <? f_tosend s)%nat && (f_buf s <? cap)%nat
+             then Some (mkF (f_tosend s - 1) (f_buf s + 1) (f_recv s)) else None
+  | FRecv => if (0 <? f_buf s)%nat && (f_recv s <? k)%nat
+             then Some (mkF (f_tosend s) (f_buf s - 1) (f_recv s + 1)) else None
+  | FHandoff => if (0 <? f_tosend s)%nat && (f_buf s =? 0)%nat && (f_recv s <? k)%nat
+                then Some (mkF (f_tosend s - 1) 0 (f_recv s + 1)) else None
+  end.
+Definition finit (senders : nat) : fstate := mkF senders 0 0.
+Fixpoint frun (cap k : nat) (s : fstate) (ls : list flabel) : option fstate :=
+  match ls with
+  | [] => Some s
+  | l :: ls' => match fstep cap k s l with Some s' => frun cap k s' ls' | None => None end
+  end.
